@@ -448,7 +448,7 @@ func GenLeaf(r *hx.Rng, kind string) []byte {
 				}
 			}
 		}
-		if r.Intn(8) == 0 {
+		if cnt > 0 && r.Intn(8) == 0 { // with sample_count 0 trailing data is the known defect C01-K71, not a well-formed box
 			raw = append(raw, r.Bytes(r.Intn(5), nil)...)
 		}
 		return Box(kind, Cat(vf(0, fl), U32(uint32(cnt)), raw))
